@@ -250,7 +250,7 @@ class Gen:
       k = r.random()
       if is_num(v) and k < .5:
         q = num_value(v)
-        return Iv(int(q) + r.choice([1, -1])) if q.denominator == 1 and r.random() < .7 else F(v[1] + 2 if v[0] == 4 else 1, v[2] if v[0] == 4 else 1)
+        return Iv(int(q) + r.choice([1, -1])) if q.denominator == 1 and r.random() < .7 else (F(v[1] + 2, v[2]) if v[0] == 4 and abs(v[1]) < 2 ** 50 else F(1, 1))
       if t == 5 and k < .6: return Sv(US(v[1]) + r.choice(['', 'a', 'b'])) if r.random() < .5 else Sv(r.choice(STRS))
       return self.leaf(not under_sym)
     if t == 6:
@@ -387,14 +387,15 @@ def dict_disc(ta, tb):
 def pair_laws(ta, tb):
   """Returns [(clause, detail)] violated by the ordered pair (ta, tb) on the implementation."""
   import pyglove as pg
-  oa, ob, oa2 = build(ta), build(tb), build(ta)
+  oa, ob = build(ta), build(tb)
   out = []
-  e_ab, e_ba, e_aa, e_aa2 = _try(lambda: pg.eq(oa, ob)), _try(lambda: pg.eq(ob, oa)), _try(lambda: pg.eq(oa, oa)), _try(lambda: pg.eq(oa, oa2))
+  e_ab, e_ba, e_aa = _try(lambda: pg.eq(oa, ob)), _try(lambda: pg.eq(ob, oa)), _try(lambda: pg.eq(oa, oa))
   n_ab = _try(lambda: pg.ne(oa, ob))
-  l_ab, l_ba, g_ab, l_aa2 = _try(lambda: pg.lt(oa, ob)), _try(lambda: pg.lt(ob, oa)), _try(lambda: pg.gt(oa, ob)), _try(lambda: pg.lt(oa, oa2))
-  for nm, r in (('eq', e_ab), ('eq', e_ba), ('eq', e_aa2), ('ne', n_ab)):
+  l_ab, l_ba, g_ab = _try(lambda: pg.lt(oa, ob)), _try(lambda: pg.lt(ob, oa)), _try(lambda: pg.gt(oa, ob))
+  same = ta == tb     # two separately built copies of one value: reflexivity / irreflexivity
+  for nm, r in (('eq', e_ab), ('eq', e_ba), ('ne', n_ab)):
     if r[0] == 'raise': out.append(('%s-raises' % nm, r[1]))
-  if e_aa == ('ok', False) or e_aa2 == ('ok', False): out.append(('eq-refl', 'pg.eq(a, a) is False'))
+  if e_aa == ('ok', False) or (same and e_ab == ('ok', False)): out.append(('eq-refl', 'pg.eq(a, a) is False'))
   if e_ab[0] == e_ba[0] == 'ok' and bool(e_ab[1]) != bool(e_ba[1]): out.append(('eq-sym', 'pg.eq(a, b)=%s but pg.eq(b, a)=%s' % (e_ab[1], e_ba[1])))
   if e_ab[0] == n_ab[0] == 'ok' and bool(n_ab[1]) == bool(e_ab[1]): out.append(('ne-negation', 'pg.ne(a, b) == pg.eq(a, b) == %s' % e_ab[1]))
   if e_ab == ('ok', True):
@@ -402,8 +403,7 @@ def pair_laws(ta, tb):
     if ca == 0 and cb == 0 and ha != hb: out.append(('eq-implies-hash', 'pg.eq(a, b) but pg.hash(a) != pg.hash(b)'))
   for r in (l_ab, l_ba, g_ab):
     if r[0] == 'raise': out.append(('lt-raises', r[1])); break
-  if l_aa2[0] == 'raise': out.append(('lt-raises', l_aa2[1]))
-  elif l_aa2[1]: out.append(('lt-irrefl', 'pg.lt(a, a) is True'))
+  if same and l_ab == ('ok', True): out.append(('lt-irrefl', 'pg.lt(a, a) is True'))
   if l_ab[0] == l_ba[0] == e_ab[0] == 'ok':
     n = [bool(l_ab[1]), bool(e_ab[1]), bool(l_ba[1])].count(True)
     if n != 1: out.append(('trichotomy', 'lt(a,b)=%s eq(a,b)=%s lt(b,a)=%s' % (l_ab[1], e_ab[1], l_ba[1])))
@@ -491,3 +491,225 @@ def show(t):
   if k == 7: return '(%s,)' % ', '.join(show(x) for x in t[1])
   if k == 8: return ('pg.Dict({%s})' if t[1] else '{%s}') % ', '.join('%r: %s' % (key_py(kk), show(x)) for kk, x in t[2])
   return '%s(%s)' % (US(t[1]), ', '.join('%s=%s' % (key_py(kk), show(x)) for kk, x in t[2]))
+
+# ------------------------------------------------------------------------------------------------
+def _ops_flag(ta): return 1 if (ta[0] == 9 and US(ta[1]) in OPT_IN) else 0
+
+def make_cases(ctx):
+  """-> list of dict(kind='pair'|'triple'|'sort'|'probe', vals=[trees], fam, dom, src)."""
+  rng = ctx.rng
+  cases = []
+  P = pool()
+  # (A) small-scope sweep: every ordered pair of the pool
+  for a in P:
+    for b in P:
+      cases.append(dict(kind='pair', vals=[a, b], fam='num', dom=True, src='sweep'))
+  # (B) random pairs, (C) random triples
+  def fresh(g, d):
+    for _ in range(50):
+      v = canon(g.value(d))
+      if buildable(v): return v
+    return Iv(0)
+  def rel(g, v):
+    """a value related to v: equal in another representation (most often), a near miss, or unrelated."""
+    k = rng.random()
+    for _ in range(30):
+      if k < .50: w, how = canon(g.variant(v)), 'variant'
+      elif k < .80: w, how = canon(g.mutant(v)), 'mutant'
+      else: w, how = fresh(g, rng.choice([0, 1, 2, 3])), 'independent'
+      if buildable(w): return w, how
+    return v, 'variant'
+  npairs, ntriples, nsorts = ctx.scale(2500, 40000), ctx.scale(700, 12000), ctx.scale(250, 4000)
+  for i in range(npairs):
+    fam = rng.choice(['num', 'num', 'str', None]) if rng.random() < .3 else rng.choice(['num', 'str'])
+    g = Gen(rng, fam)
+    a = fresh(g, rng.choice([0, 1, 2, 2, 3, 3]))
+    if rng.random() < .04: b, how = a, 'self'
+    else: b, how = rel(g, a)
+    dom = in_domain(a, fam) and in_domain(b, fam)
+    cases.append(dict(kind='pair', vals=[a, b], fam=fam, dom=dom, src=how))
+    if rng.random() < .5: cases.append(dict(kind='pair', vals=[b, a], fam=fam, dom=dom, src=how + '-flipped'))
+  for i in range(ntriples):
+    fam = rng.choice(['num', 'str'])
+    g = Gen(rng, fam)
+    a = fresh(g, rng.choice([0, 1, 2, 2, 3]))
+    b, h1 = rel(g, a)
+    c, h2 = rel(g, b if rng.random() < .6 else a)
+    vals = [a, b, c]; rng.shuffle(vals)
+    cases.append(dict(kind='triple', vals=vals, fam=fam, dom=all(in_domain(v, fam) for v in vals), src='%s+%s' % (h1, h2)))
+  for i in range(nsorts):
+    fam = rng.choice(['num', 'str'])
+    g = Gen(rng, fam)
+    vals = []
+    if rng.random() < .3: vals = [rng.choice(P) for _ in range(rng.randint(2, 7))] if fam == 'num' else []
+    while len(vals) < rng.randint(3, 9):
+      if vals and rng.random() < .5: vals.append(rel(g, rng.choice(vals))[0])
+      else: vals.append(fresh(g, rng.choice([0, 1, 2, 3])))
+    rng.shuffle(vals)
+    cases.append(dict(kind='sort', vals=vals, fam=fam, dom=all(in_domain(v, fam) for v in vals), src='sort'))
+  for v in [MISSING, NONE, B(True), Iv(3), F(3, 1), Sv('s'), Lv(0, []), Lv(1, []), Tv([]), Dv(0, []), Dv(1, [])] + \
+           [canon(Ov(n, [(f, Iv(1)) for f in fs])) for n, fs in CLASS_FIELDS.items()]:
+    cases.append(dict(kind='probe', vals=[v], fam='num', dom=True, src='probe'))
+  return cases
+
+def expand(case):
+  """Model/implementation runs of one case: list of (wire case, callable -> implementation outcome)."""
+  k, vals = case['kind'], case['vals']
+  if k == 'pair':
+    a, b = vals
+    def f():
+      oa = build(a); ob = oa if case['src'] == 'self' else build(b)
+      return impl_pair(oa, ob, _ops_flag(a))
+    return [([0, a, b, _ops_flag(a)], f)]
+  if k == 'triple':
+    out = []
+    objs = {}
+    def mk(i, j):
+      def f():
+        if not objs: objs.update({n: build(v) for n, v in enumerate(vals)})
+        return impl_pair(objs[i], objs[j], _ops_flag(vals[i]))
+      return f
+    for i in range(3):
+      for j in range(3):
+        if i != j: out.append(([0, vals[i], vals[j], _ops_flag(vals[i])], mk(i, j)))
+    return out
+  if k == 'sort':
+    return [([1, vals], lambda: impl_sort([build(v) for v in vals]))]
+  return [([2, vals[0]], lambda: impl_probe(build(vals[0])))]
+
+_SELF = {}
+def oracle(case):
+  """-> [(signature, what, shrunk-case)] on the implementation."""
+  k, vals = case['kind'], case['vals']
+  hits = []
+  if k == 'pair':
+    a, b = vals
+    if a != b and not case.get('noself'):
+      for v in (a, b):
+        key = json.dumps(v)
+        if key not in _SELF:
+          _SELF[key] = oracle(dict(kind='pair', vals=[v, v], fam=case['fam']))
+        hits += _SELF[key]
+    for clause, detail in pair_laws(a, b):
+      sa, sb = shrink_pair(a, b, clause)
+      d2 = [d for c, d in pair_laws(sa, sb) if c == clause]
+      detail = d2[0] if d2 else detail
+      hits.append((signature(clause, sa, sb, detail), '%s: a = %s, b = %s: %s' % (clause, show(sa), show(sb), detail), dict(kind='pair', vals=[sa, sb], fam=case['fam'])))
+  elif k == 'triple':
+    for i, j in ((0, 1), (1, 2), (0, 2), (1, 0), (2, 1), (2, 0)):
+      hits += oracle(dict(kind='pair', vals=[vals[i], vals[j]], fam=case['fam']))
+    if not hits:
+      import itertools
+      for p in itertools.permutations(vals):
+        for clause, detail in triple_laws(*p):
+          hits.append(('C06/%s/%s' % (clause, '-'.join(kind_of(v) for v in p)), '%s: a = %s, b = %s, c = %s: %s' % (clause, show(p[0]), show(p[1]), show(p[2]), detail),
+                       dict(kind='triple', vals=list(p), fam=case['fam'])))
+        if hits: break
+  elif k == 'sort':
+    for v in vals:
+      hits += oracle(dict(kind='pair', vals=[v, v], fam=case['fam']))
+    if not hits:
+      for clause, detail in sort_laws(vals):
+        # shrink: drop elements while it still fails
+        cur = list(vals); changed = True
+        while changed and len(cur) > 2:
+          changed = False
+          for i in range(len(cur)):
+            c2 = cur[:i] + cur[i + 1:]
+            if any(c == clause for c, _ in sort_laws(c2)): cur = c2; changed = True; break
+        if len(cur) == 2:
+          hits += oracle(dict(kind='pair', vals=cur, fam=case['fam']))
+        if not hits:
+          hits.append(('C06/%s/%s' % (clause, '-'.join(sorted({kind_of(v) for v in cur}))), '%s: sorted([%s]): %s' % (clause, ', '.join(show(v) for v in cur), detail),
+                       dict(kind='sort', vals=cur, fam=case['fam'])))
+  return hits
+
+def run(ctx):
+  info = ctx.regen('Gen/TypeOrder.v', type_order.translate)
+  ctx.build()
+  classes()
+  cases = make_cases(ctx)
+  # de-duplicate
+  seen, uniq = set(), []
+  for c in cases:
+    key = json.dumps([c['kind'], c['vals'], c['src'] == 'self'])
+    if key in seen: continue
+    seen.add(key); uniq.append(c)
+  cases = uniq
+  wire, impl, owner = [], [], []
+  bad_build = 0
+  for ci, c in enumerate(cases):
+    # the objects PyGlove builds must be exactly the trees the model is given
+    for v in c['vals']:
+      if norm_float(readback(build(v))) != norm_float(v):
+        bad_build += 1
+        ctx.log('GENERATOR: tree not realised exactly: %s -> %s' % (trlib.to_line(v), trlib.to_line(readback(build(v)))))
+    for w, f in expand(c):
+      wire.append(w); impl.append(f()); owner.append(ci)
+  if bad_build:
+    ctx.broken.append(dict(kind='harness', name='build/readback', detail='%d value trees were not realised exactly by PyGlove' % bad_build))
+  model = ctx.model_run(wire)
+  # hash collisions: the model compares pre-images; the implementation compares integers. Different pre-images may collide
+  # (hash(-1) == hash(-2) in CPython); such a case is not a disagreement.
+  collisions = 0
+  for w, io, mo in zip(wire, impl, model):
+    if w[0] == 0 and mo is not None and isinstance(mo, list) and len(mo) >= 5 and isinstance(io[4], list):
+      if io[4][:2] == [0, 0] and mo[4] == [0, 0, 0] and io[4][2] == 1:
+        collisions += 1; io[4][2] = 0
+  ctx.extra['hash_collisions_tolerated'] = collisions
+  desc = {id(w): cases[o] for w, o in zip(wire, owner)}
+  def describe(w):
+    c = desc.get(id(w))
+    return dict(kind=c['kind'], src=c['src'], values=[show(v) for v in (w[1:3] if w[0] == 0 else c['vals'])]) if c else None
+  bad = ctx.compare('Compare.run vs pg.eq/ne/lt/gt/hash/==/sorted', wire, impl, model, describe=describe)
+  # coverage
+  n_eq = n_pairs = 0
+  for c in cases:
+    vals = c['vals']
+    nt = any(is_container(v) for v in vals) or len({v[0] for v in vals}) > 1
+    sample = None
+    if nt and c['src'] not in ('sweep', 'probe') and len(ctx.samples) < 6 and max(depth_of(v) for v in vals) >= 2:
+      sample = dict(kind=c['kind'], how=c['src'], values=[show(v) for v in vals])
+    ctx.count(json.dumps([c['kind'], c['vals']]), nontrivial=nt, sample=sample, kind=c['kind'] + ':' + c['src'])
+    ctx.hist('in_theorem_domain', c['dom'])
+    ctx.hist('max_depth', max(depth_of(v) for v in vals))
+    if c['kind'] == 'pair':
+      ctx.hist('pair_top_kinds', '%s/%s' % (kind_of(vals[0]), kind_of(vals[1])))
+  for w, io in zip(wire, impl):
+    if w[0] == 0 and desc[id(w)]['src'] not in ('sweep',):
+      n_pairs += 1
+      rel = 'eq' if io[0] == 1 else 'lt' if io[2] == [0, 1] else 'gt' if io[3] == [0, 1] else 'raises' if (io[2][0] == 1 or io[3][0] == 1) else 'none-of-the-three'
+      n_eq += io[0] == 1
+      ctx.hist('random_pair_outcome', rel)
+      ctx.hist('hash_defined', 'both' if io[4][:2] == [0, 0] else 'not-both')
+  ctx.extra['random_pairs_equal_up_to_representation'] = dict(pairs=n_pairs, equal=n_eq, fraction=round(n_eq / max(n_pairs, 1), 3))
+  ctx.extra['sweep'] = dict(exhaustive=True, what='all ordered pairs of the %d pool values' % len(pool()), pairs=len(pool()) ** 2)
+  # the direct oracle on every case of the theorems' domain (and on the disagreeing ones)
+  n_or = 0
+  todo = [c for c in cases if c['dom'] and c['kind'] != 'probe'] + [cases[owner[i]] for i in bad[:50] if cases[owner[i]]['kind'] != 'probe']
+  for c in todo:
+    n_or += 1
+    for sig, what, shrunk in oracle(c):
+      ctx.hit(sig, what, shrunk)
+  ctx.extra['oracle_evaluations'] = n_or
+  # targeted search when something no longer checks and no failing input was found yet
+  if ctx.is_broken() and not ctx.hits:
+    P = pool(); rng = ctx.rng
+    for _ in range(ctx.scale(4000, 40000)):
+      vals = [rng.choice(P) for _ in range(3)]
+      for sig, what, shrunk in oracle(dict(kind='triple', vals=vals, fam='num')):
+        ctx.hit(sig, what, shrunk)
+      if ctx.hits: break
+    for _ in range(ctx.scale(500, 5000)):
+      if ctx.hits: break
+      vals = [rng.choice(P) for _ in range(rng.randint(3, 8))]
+      for sig, what, shrunk in oracle(dict(kind='sort', vals=vals, fam='num')):
+        ctx.hit(sig, what, shrunk)
+
+def replay(ctx, rp):
+  classes()
+  c = rp['case']
+  hits = oracle(dict(kind=c['kind'], vals=c['vals'], fam=c.get('fam', 'num')))
+  for h in hits:
+    print('  still fails:', h[0], '|', h[1])
+  return not hits
